@@ -137,7 +137,7 @@ impl WorldA {
             6 => Op::new(K_DROP, i as u64, d as u64, self.pick_pool_index(rng, in_flight), 0),
             7 => Op::new(K_DROPALL, i as u64, d as u64, 0, 0),
             8 => {
-                let order = if self.cfg.get("burst") == 1 { *rng.pick(&[2u64, 2, 1, 0]) } else { *rng.pick(&[0u64, 0, 1, 2]) };
+                let order = if self.cfg.get("burst") == 1 { *rng.pick(&[2u64, 2, 3, 3, 4, 1, 0]) } else { *rng.pick(&[0u64, 0, 1, 2, 3]) };
                 let keep = if dup > 0 && rng.below(100) < dup / 2 { 1 } else { 0 };
                 Op::new(K_DELIVERALL, i as u64, d as u64, order, keep)
             }
